@@ -122,7 +122,8 @@ func execPath(j job) (res result) {
 		res.HarnessErr = e.Error()
 		return
 	}
-	res.Key, res.OK = fmt.Sprintf("%d|%s", w.A.Height(), k), true
+	// the certificate of the last block is not part of the state dump but decides the next begin-block
+	res.Key, res.OK = fmt.Sprintf("%d|%s|%v", w.A.Height(), k, len(res.Reports) > 0 && res.Reports[len(res.Reports)-1].PartialQC), true
 	return
 }
 
@@ -246,8 +247,18 @@ func main() {
 		if lv.cap > 0 && len(frontier) > lv.cap {
 			complete = false
 			exp = nil
-			for i := 0; i < lv.cap; i++ {
-				exp = append(exp, frontier[i*len(frontier)/lv.cap])
+			// states whose last certificate has a non-signer first (at most half of the cap), then an even sample
+			var rest []st
+			for _, f := range frontier {
+				last := f.path[len(f.path)-1]
+				if len(exp) < lv.cap/2 && len(last) > 0 && last[len(last)-1] == itPartialQC {
+					exp = append(exp, f)
+				} else {
+					rest = append(rest, f)
+				}
+			}
+			for i, n := 0, lv.cap-len(exp); i < n && len(rest) > 0; i++ {
+				exp = append(exp, rest[i*len(rest)/n])
 			}
 		}
 		expanded = append(expanded, len(exp))
